@@ -157,7 +157,10 @@ Definition field_table : list (string * dtype) :=
    ("destinationPodNamespace", String_); ("destinationNodeName", String_);
    ("destinationClusterIPv4", Ipv4Address); ("destinationClusterIPv6", Ipv6Address);
    ("destinationServicePort", Unsigned16); ("ingressNetworkPolicyRulePriority", Signed32);
-   ("octetDeltaCount", Unsigned64); ("tcpState", String_)].
+   ("octetDeltaCount", Unsigned64); ("tcpState", String_);
+   (* the end time of the flow as that node saw it: read by nothing in the correlation logic,
+      the two nodes of a flow disagree on it *)
+   ("flowEndSeconds", DateTimeSeconds)].
 
 Definition registry_has (nd : string * dtype) : bool :=
   existsb (fun row => match row with (n, _, d, _, _) =>
